@@ -1806,6 +1806,7 @@ func ruleTimeExemptionOnElement(r *Run, rule string) {
 				for _, st := range cc.Body {
 					ast.Inspect(st, func(y ast.Node) bool {
 						var tested ast.Expr
+						viaType := false // the test compares Y.Type(): the type of an interface-kind value is the interface type, not that of what it holds
 						switch v := y.(type) {
 						case *ast.TypeAssertExpr:
 							if v.Type != nil && ExprStr(v.Type) == "time.Time" {
@@ -1821,6 +1822,7 @@ func ruleTimeExemptionOnElement(r *Run, rule string) {
 									if call, ok := ast.Unparen(pair[0]).(*ast.CallExpr); ok && len(call.Args) == 0 {
 										if sel, ok := ast.Unparen(call.Fun).(*ast.SelectorExpr); ok && sel.Sel.Name == "Type" && strings.Contains(strings.ToLower(ExprStr(pair[1])), "time") {
 											tested = sel.X
+											viaType = true
 										}
 									}
 								}
@@ -1835,7 +1837,7 @@ func ruleTimeExemptionOnElement(r *Run, rule string) {
 							// X := Y.Elem() with the test on Y (an interface value: Y.Interface() is X's value)
 							if o := ObjOf(info, subj); o != nil && defs[o] != nil {
 								d := ExprStr(defs[o])
-								if d == ExprStr(tested)+".Elem()" || d == ExprStr(tested) {
+								if (d == ExprStr(tested)+".Elem()" && !viaType) || d == ExprStr(tested) {
 									okT = true
 								}
 							}
